@@ -418,13 +418,15 @@ int api_op(const char *name, int lineno)
     if (!strcmp(name, "getroc")) {
         srtp_t s = ses[(int)IA[0] % MAXSES];
         uint32_t roc = 0;
-        srtp_err_status_t st = s ? srtp_stream_get_roc(s, (uint32_t)IA[1], &roc) : (srtp_err_status_t)-2;
+        if (!s) { out_z(-2); return 1; }
+        srtp_err_status_t st = srtp_stream_get_roc(s, (uint32_t)IA[1], &roc);
         out_z(st); out_u(st ? 0 : roc);
         return 1;
     }
     if (!strcmp(name, "trailer")) {
         srtp_t s = ses[(int)IA[0] % MAXSES];
         size_t l = 0;
+        if (!s) { out_z(-2); return 1; }
         srtp_err_status_t st = IA[1] ? srtp_get_protect_trailer_length(s, (size_t)IA[2], &l)
                                      : srtp_get_protect_rtcp_trailer_length(s, (size_t)IA[2], &l);
         out_z(st); out_u(st ? 0 : l);
